@@ -1281,6 +1281,10 @@ class IRGenerator:
         elif isinstance(obj, ApiRoutesByVersion):
             raise InvalidSpec('A route cannot be referenced here.',
                               *loc)
+        elif not isinstance(obj, DataType):
+            # An imported namespace, an annotation or an annotation type.
+            raise InvalidSpec('%s is not a data type.' % quote(type_ref.name),
+                              *loc)
         elif type_ref.args[0] or type_ref.args[1]:
             # An instance of a type cannot have any additional
             # attributes specified.
